@@ -148,6 +148,9 @@ func runThorough(p *Property, rep *Report) (map[string]interface{}, int, []strin
 	for _, d := range seededFor(p.ID) {
 		jobs = append(jobs, job{"mutant:seeded/" + filepath.Base(d), []string{"-property", p.ID, "-seeded", d, "-noevidence", "-repo", *flagRepo, "-verif", *flagVerif}})
 	}
+	for _, d := range preservingDirs() {
+		jobs = append(jobs, job{"mutant:preserving/" + filepath.Base(d), []string{"-property", p.ID, "-preserving", d, "-noevidence", "-repo", *flagRepo, "-verif", *flagVerif}})
+	}
 	type res struct {
 		name string
 		code int
